@@ -150,3 +150,4 @@ func vhLoopSleep(d time.Duration) {
 	vthreadEnd()
 	time.Sleep(d)
 }
+
